@@ -37,7 +37,7 @@ class Adapter(EnvAdapter):
         return self._base_configs(tier) + [
             dict(id=f"n10a2k2_t{t}_sweep", ctor=dict(num_nodes=10, num_edges=15, max_degree=4, num_agents=2, num_nodes_per_agent=2,
                                                     time_limit=t, default=False), episodes=1, max_steps=t + 2,
-                 policies=["stall"], probe_every=0, props=["C03", "C11"]) for t in ts] + [
+                 policies=["stall"], probe_every=0, props=["C01", "C03", "C11", "C12"]) for t in ts] + [
             # DenseRewardFn with non-default reward values: only the groups that do not depend on the reward accounting
             dict(id="n10a2k2_t7_rw", ctor=dict(num_nodes=10, num_edges=15, max_degree=4, num_agents=2, num_nodes_per_agent=2,
                                                time_limit=7, default=False, reward_values=(5.0, -2.0, -3.5)),
